@@ -6,7 +6,7 @@ from . import _difffam as FAM
 
 ID = 'C03'
 LEAN_TARGETS = ['Properties.C03']
-THEOREMS = ['Diff.C03_threshold_off', 'Diff.C03_positional_indep', 'Diff.C03_kvs_indep', 'Diff.C03_pairs_indep']
+THEOREMS = ['Diff.C03_model_eq_spec', 'Diff.C03_deepDiff_eq_spec', 'Diff.C03_same_entries', 'Diff.C03_threshold_off', 'Diff.C03_positional_indep', 'Diff.C03_kvs_indep', 'Diff.C03_pairs_indep']
 RULE = ('pairs of nested values over dict (str/int/float/None/bool keys), list, tuple, set, frozenset, str (incl. multi-line), bytes, int, float, bool, None: '
         'generated values with 1-3 random edits, flat lists with insert/delete/replace/move/duplicate, deep copies; the complete verbose text view with '
         'zip_ordered_iterables=True, threshold_to_diff_deeper=0 is compared (a) with an independent ~70-line Python specification and (b) with the Lean model. '
